@@ -77,6 +77,14 @@ mut("append-value-own-push", IDR, "        let new_child = arena.new_node(value)
     }
 
     pub(crate) fn free_node(&mut self, id: NodeId) {""")], note="append_value allocates through a path of its own that never recycles a removed slot")
+mut("rf-ptr-range-backport", ARN, '        let nodes_range = self.nodes.as_ptr_range();\n        let p = node as *const Node<T>;\n\n        if !nodes_range.contains(&p) {\n            return None;\n        }\n\n        let node_index = (p as usize - nodes_range.start as usize) / mem::size_of::<Node<T>>();', '        let start = self.nodes.as_ptr();\n        let end = start.wrapping_add(self.nodes.len());\n        let p = node as *const Node<T>;\n\n        if p < start || p >= end {\n            return None;\n        }\n\n        let node_index = (p as usize - start as usize) / mem::size_of::<Node<T>>();', [], silent=True, note="get_node_id without as_ptr_range/contains: start..start+len spelled out (benign R4d-2/R5d-2)")
+mut("ptr-range-backport-le", ARN, '        let nodes_range = self.nodes.as_ptr_range();\n        let p = node as *const Node<T>;\n\n        if !nodes_range.contains(&p) {\n            return None;\n        }\n\n        let node_index = (p as usize - nodes_range.start as usize) / mem::size_of::<Node<T>>();', '        let start = self.nodes.as_ptr();\n        let end = start.wrapping_add(self.nodes.len());\n        let p = node as *const Node<T>;\n\n        if p <= start || p >= end {\n            return None;\n        }\n\n        let node_index = (p as usize - start as usize) / mem::size_of::<Node<T>>();', ["C11"], note="the same back-port with `p <= start`: the node in slot 0 is no longer found")
+mut("rf-rewrite-parents-lag", SIB, '        let mut child_opt = Some(self.first);\n        while let Some(child) = child_opt {\n            if Some(child) == new_parent {\n                // Attempt to set the node itself as its parent.\n                return Err(ConsistencyError::ParentChildLoop);\n            }\n            let child_node = &mut arena[child];\n            child_node.parent = new_parent;\n            child_opt = child_node.next_sibling;\n        }\n', '        let mut child_opt = Some(self.first);\n        let mut last_visited = self.first;\n        while let Some(child) = child_opt {\n            if Some(child) == new_parent {\n                // Attempt to set the node itself as its parent.\n                return Err(ConsistencyError::ParentChildLoop);\n            }\n            let child_node = &mut arena[child];\n            child_node.parent = new_parent;\n            child_opt = child_node.next_sibling;\n            last_visited = child;\n        }\n        debug_assert_eq!(last_visited, self.last, "the sibling chain from `first` must end at `last`");\n', [], silent=True, note="rewrite_parents remembers the last visited child and asserts it is self.last (benign R1d-3)")
+mut("rewrite-parents-lag-wrong", SIB, '        let mut child_opt = Some(self.first);\n        while let Some(child) = child_opt {\n            if Some(child) == new_parent {\n                // Attempt to set the node itself as its parent.\n                return Err(ConsistencyError::ParentChildLoop);\n            }\n            let child_node = &mut arena[child];\n            child_node.parent = new_parent;\n            child_opt = child_node.next_sibling;\n        }\n', '        let mut child_opt = Some(self.first);\n        let mut last_visited = self.first;\n        while let Some(child) = child_opt {\n            if Some(child) == new_parent {\n                // Attempt to set the node itself as its parent.\n                return Err(ConsistencyError::ParentChildLoop);\n            }\n            let child_node = &mut arena[child];\n            child_node.parent = new_parent;\n            child_opt = child_node.next_sibling;\n            last_visited = child;\n        }\n        debug_assert_eq!(last_visited, self.first, "the sibling chain from `first` must end at `last`");\n', ["C04"], note="the same with the assertion against self.first: remove() of a node with two children panics in debug builds")
+mut("stamp-by-value-not-stored", ARN, "        node.stamp.as_removed();\n        let stamp = node.stamp;", "        let stamp = node.stamp.removed();", ["C07"],
+    extra=[(IDR, "    pub fn as_removed(&mut self) {\n        debug_assert!(!self.is_removed());\n        self.0 = if self.0 < i16::MAX {", "    pub fn removed(self) -> Self {\n        debug_assert!(!self.is_removed());\n        NodeStamp(if self.0 < i16::MAX {"),
+           (IDR, "            i16::MIN\n        };\n    }", "            i16::MIN\n        })\n    }")],
+    note="by-value removal transition (benign R3d-1) whose result free_node forgets to store: the freed slot keeps its live stamp")
 mut("new-pub-link-writer", IDR, "    pub fn remove_subtree<T>(self, arena: &mut Arena<T>) {", """    /// Forgets the parent of this node.
     pub fn orphan<T>(self, arena: &mut Arena<T>) {
         arena[self].parent = None;
